@@ -994,8 +994,9 @@ def run_s3(ctx, use_lean=True):
             off += s
         # Cat.eager_subs is only reached while the Cat stays lazy: either substitute under `lazy`, or make
         # the parts lazy (a real free variable x, set to 0 afterwards) and substitute under eager
-        # (single-part Cats with lazy parts are the region of KF-subs-dropped-after-rewrite: dedicated stream)
-        how = rng.choice(["lazy-call", "lazy-parts"]) if len(sizes) > 1 else "lazy-call"
+        # (a one-part Cat with a lazy part is REWRITTEN by eager_cat when rebuilt: the substitution of its own name
+        #  must survive the rewrite — fixed in 64e4215)
+        how = rng.choice(["lazy-call", "lazy-parts"])
         if how == "lazy-parts":
             with lazy:
                 cat = Cat("i", tuple(p + Variable("x", Real) for p in parts))
@@ -1139,6 +1140,149 @@ def run_s3(ctx, use_lean=True):
 
 
 # ------------------------------------------------------------------------------------------------
+# S4: nodes that the base interpretation REWRITES when they are rebuilt during substitution
+# ------------------------------------------------------------------------------------------------
+
+def run_rewritten(ctx):
+    """Lazily built nodes that an eager rule turns into a different class when `substitute` rebuilds them
+    (one-part Cat -> its part renamed; one-part Stack; Lambda indexed; Independent without its diag var), substituted
+    under eager by number / variable / slice / index tensor for the node's own name and, simultaneously, for an
+    input of the parts.  Oracle: pointwise numpy."""
+    rng = ctx.rng
+    x = Variable("x", Real)
+    n_ok = 0
+    known_seen = {"cases": 0, "bad": []}
+    for size, nparts, cls in itertools.product([1, 2, 3], [1, 2], ["cat", "cat-pn", "stack"]):
+        for own_val, other_val in itertools.product(["num", "var-fresh", "var-other", "slice", "tensor", "none"],
+                                                    ["none", "num", "var-own", "var-fresh"]):
+            if own_val == "none" and other_val == "none":
+                continue
+            # parts over inputs (i: size) [cat] and (k: 2), each lazy through the real variable x
+            datas = [np.array([[rng.choice([0, 1, 2, 3, 4, 5]) for _ in range(2)] for _ in range(size)], dtype=np.float64)
+                     for _ in range(nparts)]
+            with lazy:
+                if cls == "stack":
+                    parts = tuple(Tensor(d[0], OrderedDict(k=Bint[2])) + x for d in datas)
+                    f = Stack("i", parts)
+                    total = nparts
+                    full = np.stack([d[0] for d in datas])              # [i, k]
+                else:
+                    pn = "i" if cls == "cat" else "t"
+                    parts = tuple(Tensor(d, OrderedDict([(pn, Bint[size]), ("k", Bint[2])])) + x for d in datas)
+                    f = Cat("i", parts, pn)
+                    total = size * nparts
+                    full = np.concatenate(datas, axis=0)               # [i, k]
+            sigma, spec = OrderedDict(), {}
+            if own_val == "num":
+                n = rng.randrange(total); sigma["i"] = n; spec["i"] = lambda p, n=n: n
+            elif own_val == "var-fresh":
+                sigma["i"] = "a"; spec["i"] = lambda p: p["a"]
+            elif own_val == "var-other":
+                if total != 2:
+                    continue
+                sigma["i"] = "k"; spec["i"] = lambda p: p["k"]
+            elif own_val == "slice":
+                st = rng.randrange(total); sp = rng.choice([1, 2])
+                sigma["i"] = Slice("a", st, total, sp, total); spec["i"] = lambda p, st=st, sp=sp: st + sp * p["a"]
+            elif own_val == "tensor":
+                idx = np.array([[rng.randrange(total) for _ in range(2)] for _ in range(2)], dtype=np.int64)
+                sigma["i"] = Tensor(idx, OrderedDict(b=Bint[2], k=Bint[2]), total)
+                spec["i"] = lambda p, idx=idx: int(idx[p["b"], p["k"]])
+            if other_val == "num":
+                m = rng.randrange(2); sigma["k"] = m; spec["k"] = lambda p, m=m: m
+            elif other_val == "var-own":
+                if total != 2:
+                    continue
+                sigma["k"] = "i"; spec["k"] = lambda p: p["i"]
+            elif other_val == "var-fresh":
+                sigma["k"] = "c"; spec["k"] = lambda p: p["c"]
+            # expected inputs
+            exp = OrderedDict()
+            for nm, sz in (("i", total), ("k", 2)):
+                if nm not in sigma:
+                    exp[nm] = sz
+            for kk, v in sigma.items():
+                sz = total if kk == "i" else 2
+                vin = {} if isinstance(v, int) else ({v: sz} if isinstance(v, str) else {a: int(d.size) for a, d in v.inputs.items()})
+                for a, d in vin.items():
+                    if exp.setdefault(a, d) != d:
+                        exp = None
+                        break
+                if exp is None:
+                    break
+            if exp is None:
+                continue
+            ins = sorted(exp.items())
+            oracle = np.zeros(tuple(s_ for _, s_ in ins))
+            for pt in itertools.product(*[range(s_) for _, s_ in ins]):
+                p = dict(zip([a for a, _ in ins], pt))
+                oracle[pt] = full[spec["i"](p) if "i" in spec else p["i"], spec["k"](p) if "k" in spec else p["k"]]
+            wit = {"stream": "S4.rewritten-node", "class": cls, "part_size": size, "parts": nparts,
+                   "sigma": {k_: (v if isinstance(v, (int, str)) else str(v)) for k_, v in sigma.items()},
+                   "data": [d.tolist() for d in datas]}
+            py = (PY_HEADER + f"# {cls} of {nparts} lazy part(s) (Tensor + Variable('x', Real)) built under lazy, then f(**sigma) under eager; "
+                  "see witness for data and sigma\nFAILS = True\n")
+            try:
+                r = f(**sigma)
+            except DECLINE as e:
+                ctx.count(f"S4:declined:{type(e).__name__}")
+                continue
+            bad = [a for a, d in r.inputs.items() if a != "x" and (a not in exp or exp[a] != d.size)]
+            if bad:
+                ctx.fail("input", "C04.S4.rewritten-node.inputs", witness=wit, expected=str(dict(exp)),
+                         got=str({a: str(d) for a, d in r.inputs.items()}), python=py)
+                continue
+            try:
+                r0 = r(x=0.0) if "x" in r.inputs else r
+                with eager:
+                    r0 = reinterpret(r0)
+                tab = futil.table(r0, ins)
+            except DECLINE as e:
+                ctx.count(f"S4:eval-declined:{type(e).__name__}")
+                continue
+            if tab is None:
+                ctx.count("S4:lazy-result")
+                continue
+            # region of KF-cat-onepart-capture: a one-part Cat whose own name is re-introduced below it by a value
+            capture_region = cls != "stack" and nparts == 1 and other_val == "var-own"
+            if capture_region:
+                known_seen["cases"] += 1
+                if not np.array_equal(tab, oracle):
+                    known_seen["bad"].append(wit)
+                continue
+            if not np.array_equal(tab, oracle):
+                ctx.fail("input", "C04.S4.rewritten-node.value", witness=wit, expected={"inputs": ins, "table": oracle.tolist()},
+                         got=tab.tolist(), python=py)
+                continue
+            n_ok += 1
+            ctx.count(f"S4:{cls}:parts={nparts}:ok")
+            ctx.case(nontrivial_key=("S4", cls, size, nparts, own_val, other_val))
+    # dedicated stream of KF-cat-onepart-capture
+    bad = known_seen["bad"]
+    listed = ctx.known(KF_CAPTURE, reproduced=bool(bad),
+                       what=f"one-part lazily built Cat('i', (g(i,k)+x,)) with sigma renaming k onto 'i' while 'i' is substituted: "
+                            f"eager_cat merges the Cat's axis with the introduced name ({len(bad)}/{known_seen['cases']} cases wrong)")
+    if bad and not listed:
+        ctx.fail("input", "C04.known." + KF_CAPTURE, witness=bad[0],
+                 expected="g[sigma(i), i] (simultaneous; or a decline like the multi-part Cat)", got="diagonal / captured value",
+                 python=KF_CAPTURE_PY)
+
+
+KF_CAPTURE = "KF-cat-onepart-capture"
+KF_CAPTURE_PY = PY_HEADER + """g = Tensor(np.array([[4., 5.], [1., 3.]]), OrderedDict(i=Bint[2], k=Bint[2]))
+x = Variable('x', Real)
+with lazy:
+    c = Cat('i', (ops.add(g, x),))
+try:
+    r = c(i=1, k='i')(x=0.)
+    print(r)          # expected Tensor([1., 3.], {i}) = g[1, i]; a decline (AssertionError as for two parts) is allowed
+    FAILS = not (list(r.inputs) == ['i'] and list(np.asarray(r.data)) == [1., 3.])
+except AssertionError:
+    FAILS = False
+"""
+
+
+# ------------------------------------------------------------------------------------------------
 # entry points
 # ------------------------------------------------------------------------------------------------
 
@@ -1153,47 +1297,9 @@ RULE = ("S1: exhaustive sigma-shapes (18 descriptors per input: none, number, va
         "with Slice/Number. Non-trivial = at least one non-number value; distinct by full content.")
 
 
-KF_DROPPED = "KF-subs-dropped-after-rewrite"
-KF_DROPPED_PY = PY_HEADER + """p = Tensor(np.arange(3.), OrderedDict(i=Bint[3]))
-x = Variable('x', Real)
-with lazy:
-    c = Cat('i', (ops.add(p, x),))       # a single lazy part
-r = c(i=1)
-print(r, r.inputs)                       # expected: 1 + x with inputs {x}; the substitution is silently ignored
-FAILS = 'i' in r.inputs
-"""
-
-
-def run_known(ctx):
-    """Dedicated stream of the open finding: a lazily built single-part Cat substituted under eager is rebuilt by
-    eager_cat into parts[0](part_name=name) whose `fresh` no longer contains the Cat's own name, and
-    SubstituteInterpretation.interpret then drops the substitution."""
-    p = Tensor(np.arange(3.), OrderedDict(i=Bint[3]))
-    x = Variable("x", Real)
-    bad = []
-    for label, val in (("number", 1), ("variable", "j"), ("slice", Slice("j", 0, 2, 1, 3))):
-        with lazy:
-            c = Cat("i", (p + x,))
-        try:
-            r = c(i=val)
-        except DECLINE:
-            continue
-        if "i" in r.inputs:
-            bad.append(label)
-    what = ("Cat('i', (lazy_part,)) built under lazy, then c(i=v) under eager returns a term that still depends on i "
-            f"(substitution ignored) for v in {bad}")
-    listed = ctx.known(KF_DROPPED, reproduced=bool(bad), what=what)
-    if bad and not listed:
-        ctx.fail("input", "C04.known." + KF_DROPPED,
-                 witness={"stream": "known", "f": "Cat('i', (Tensor(arange(3), i) + Variable('x', Real),)) built under lazy",
-                          "sigma": {"i": bad}},
-                 expected="inputs {x: Real} (i substituted)", got="inputs {i: Bint[3], x: Real}: substitution ignored",
-                 python=KF_DROPPED_PY)
-
-
 def correspond(ctx):
     ctx.rule = RULE
-    run_known(ctx)
+    run_rewritten(ctx)
     run_s3(ctx)
     run_s1(ctx)
     run_s2(ctx, 700 if ctx.tier == "quick" else 12000)
@@ -1204,6 +1310,7 @@ def correspond(ctx):
 def search(ctx, broken):
     """Python-side oracles only (works without Lean): S1 against numpy, S3 against python slicing at higher
     volume; S2 against a pointwise oracle (number substitution only)."""
+    run_rewritten(ctx)
     run_s3(ctx, use_lean=False)
     if any(f.witness is not None for f in ctx.failures):
         return
